@@ -1,2 +1,60 @@
-(* placeholder; theorems are added below *)
-From Hexital Require Import Base.Prelude.
+(* C17 - Movement, candle-shape and pattern predicates mean what they document.
+   Proved: candle geometry over the reals and its invariance under positive scaling and
+   shifting (the quantities every pattern clause compares); above/below are strict and
+   never true on a missing reading; crossover/crossunder = above/below now and the
+   opposite one candle earlier.  The windowed functions' documented meaning and the
+   pattern witnesses are decided by the reference falsifier and the bit-exact
+   correspondence of Model/Analysis.v. *)
+From Coq Require Import ZArith List String Bool Reals.
+From Hexital Require Import Base.Prelude Base.Num Model.Manager Model.Candle Model.Readings Model.Analysis
+  Inst.RealInst Proofs.AnalysisProofs Proofs.GeometryReal.
+Import ListNotations.
+
+Theorem C17_candle_geometry :
+  forall (x : ohlcv ROps), wf_candle x ->
+  c_realbody ROps x = Rabs (c_open ROps x - c_close ROps x) /\
+  c_shadow_upper ROps x = (c_high ROps x - Rmax (c_open ROps x) (c_close ROps x))%R /\
+  c_shadow_lower ROps x = (Rmin (c_open ROps x) (c_close ROps x) - c_low ROps x)%R /\
+  c_high_low ROps x = (c_high ROps x - c_low ROps x)%R /\
+  (c_positive ROps x = true <-> (c_open ROps x < c_close ROps x)%R) /\
+  (c_negative ROps x = true <-> (c_close ROps x < c_open ROps x)%R).
+Proof. exact geometry. Qed.
+Print Assumptions C17_candle_geometry.
+
+Theorem C17_geometry_scale_invariant :
+  forall (k : R) (x : ohlcv ROps), (0 < k)%R ->
+  c_realbody ROps (scale k x) = (k * c_realbody ROps x)%R /\
+  c_shadow_upper ROps (scale k x) = (k * c_shadow_upper ROps x)%R /\
+  c_shadow_lower ROps (scale k x) = (k * c_shadow_lower ROps x)%R /\
+  c_high_low ROps (scale k x) = (k * c_high_low ROps x)%R /\
+  c_positive ROps (scale k x) = c_positive ROps x /\ c_negative ROps (scale k x) = c_negative ROps x.
+Proof. exact geometry_scale. Qed.
+Print Assumptions C17_geometry_scale_invariant.
+
+Theorem C17_geometry_shift_invariant :
+  forall (d : R) (x : ohlcv ROps),
+  c_realbody ROps (shift d x) = c_realbody ROps x /\
+  c_shadow_upper ROps (shift d x) = c_shadow_upper ROps x /\
+  c_shadow_lower ROps (shift d x) = c_shadow_lower ROps x /\
+  c_high_low ROps (shift d x) = c_high_low ROps x /\
+  c_positive ROps (shift d x) = c_positive ROps x /\ c_negative ROps (shift d x) = c_negative ROps x.
+Proof. exact geometry_shift. Qed.
+Print Assumptions C17_geometry_shift_invariant.
+
+Theorem C17_above_below_strict_and_missing_is_false :
+  forall (O : NumOps) (cs : list (cd (payload O))) a b i r1 r2, cs <> [] ->
+  reading_by_index O cs a i = Ok r1 -> reading_by_index O cs b i = Ok r2 ->
+  (is_none O r1 || is_none O r2 = true -> above_b O cs a b i = Ok false /\ below_b O cs a b i = Ok false) /\
+  (forall x y, r1 = VNum x -> r2 = VNum y ->
+     above_b O cs a b i = Ok (nltb O y x) /\ below_b O cs a b i = Ok (nltb O x y)).
+Proof. exact above_below_meaning. Qed.
+Print Assumptions C17_above_below_strict_and_missing_is_false.
+
+Theorem C17_cross_is_above_now_below_before :
+  forall (O : NumOps) (cs : list (cd (payload O))) a b i, (1 <= i < zlen cs)%Z ->
+  mv_crossover O cs a b 1 i =
+    (x <- above_b O cs a b i ;; if negb x then Ok (VBool false) else y <- below_b O cs a b (i - 1) ;; Ok (VBool y)) /\
+  mv_crossunder O cs a b 1 i =
+    (x <- below_b O cs a b i ;; if negb x then Ok (VBool false) else y <- above_b O cs a b (i - 1) ;; Ok (VBool y)).
+Proof. exact cross_meaning. Qed.
+Print Assumptions C17_cross_is_above_now_below_before.
